@@ -2,6 +2,7 @@ package rules
 
 import (
 	"fmt"
+	"go/token"
 
 	"golang.org/x/tools/go/ssa"
 
@@ -52,7 +53,39 @@ func runC02(c *core.Ctx) {
 			}
 			r.Check(ok, "c02.sorted-before-dedup", ssax.FuncName(f)+": sort.Sort sorts the batch parameter", r.pos(s), "the sorted value is the dataPoints batch being de-duplicated")
 		}
-		r.pairedLoopUpdate("c02.dedup-cursors", f, "indexPrev", "tsPrev", "a stale timestamp cursor makes the first rows of the next series look like duplicates of the previous series' last timestamp and drops acknowledged points")
+		// the two cursors are selected by their role, not by their names: the block-start cursor is the loop
+		// variable used as the low bound of the column windows handed to the writer, the timestamp cursor the
+		// int64 loop variable compared for equality with a timestamps element
+		usedAs := func(pred func(in ssa.Instruction, p *ssa.Phi) bool) func(*ssa.Phi) bool {
+			return func(p *ssa.Phi) bool {
+				refs := p.Referrers()
+				if refs == nil {
+					return false
+				}
+				for _, ref := range *refs {
+					if pred(ref, p) {
+						return true
+					}
+				}
+				return false
+			}
+		}
+		isBlockStart := usedAs(func(in ssa.Instruction, p *ssa.Phi) bool {
+			sl, ok := in.(*ssa.Slice)
+			return ok && sl.Low == ssa.Value(p)
+		})
+		isTsCursor := usedAs(func(in ssa.Instruction, p *ssa.Phi) bool {
+			bo, ok := in.(*ssa.BinOp)
+			if !ok || bo.Op != token.EQL {
+				return false
+			}
+			other := bo.X
+			if other == ssa.Value(p) {
+				other = bo.Y
+			}
+			return flowsFromFieldNamed(other, "timestamps", 0)
+		})
+		r.pairedLoopUpdateSel("c02.dedup-cursors", f, "the block-start cursor", "the timestamp cursor", isBlockStart, isTsCursor, "a stale timestamp cursor makes the first rows of the next series look like duplicates of the previous series' last timestamp and drops acknowledged points")
 	}
 
 	// merge and query decide a duplicate timestamp by the versions of exactly the two colliding rows
